@@ -1,6 +1,7 @@
 import Driver.Util
 import Driver.Ssbs
 import ESV.Comp.Backend
+import ESV.Comp.LabSem
 import ESV.SsbScript.Closed
 open Lean Drv ESV ESV.Comp
 
@@ -9,6 +10,8 @@ open Lean Drv ESV ESV.Comp
 comp.compile  {prog: Comp AST (harness/gen/complower.py)}  →  {"ok": {ops, infos, coros}} | {"error": class}
 comp.frontend {prog}  →  the labelled code before the back end + whether its op offsets are pairwise distinct
 comp.backend  {routines: labelled code}  →  ops | error   (the three back-end passes on arbitrary labelled code)
+comp.wfl      {prog}  →  {"wfl": bool, one flag per conjunct} | {"error": class}: the hypothesis `WFL` of the back-end theorem
+              (ESV/Props/C01Backend.lean `backend_preserves`) evaluated on the labelled code the front-end model produces
 -/
 namespace Drv.CompD
 open Drv.SsbsD (paramOf paramTo)
@@ -123,6 +126,15 @@ def handle (op : String) (j : Json) : R Json := do
     | .ok t =>
       let offs := (t.ops.flatten.filterMap LItem.offsetOf)
       pure (Json.mkObj [("routines", jList (jList itemTo) t.ops), ("distinct", .bool (decide offs.Nodup))])
+  | "comp.wfl" =>
+    let p ← programOf (← fld j "prog")
+    match frontend p with
+    | .error e => pure (Json.mkObj [("error", .str e.name)])
+    | .ok t =>
+      let rs := t.ops
+      pure (Json.mkObj [("wfl", .bool (decide (WFL rs))), ("distinct", .bool (decide (DistinctOffsets rs))),
+        ("labels", .bool (decide (labelIds rs.flatten).Nodup)), ("raw", .bool (rs.flatten.all rawOK)),
+        ("root", .bool (rs.flatten.all rootOK)), ("ctx", .bool (rs.all ctxOK)), ("cond", .bool (rs.all condOK))])
   | "comp.backend" =>
     let rs ← (← asArr (← fld j "routines")).mapM fun r => do (← asArr r).mapM itemOf
     pure (resultTo (backend rs) [] [])
